@@ -34,17 +34,17 @@ func BV(w int) Sort { return Sort{SBV, w} }
 // Term is a hash-consed SMT term. FP values are carried as BV64 bit patterns and
 // operated on with fp.* ops that wrap/unwrap via to_fp / fp.to_ieee_bv-free encodings.
 type Term struct {
-	Op     string
-	Args   []*Term
-	S      Sort
-	C      uint64 // constant value when Op=="const"
-	Name   string // when Op=="var"
-	P1, P2 int
-	id     int
+	Op      string
+	Args    []*Term
+	S       Sort
+	C       uint64 // constant value when Op=="const"
+	Name    string // when Op=="var"
+	P1, P2  int
+	id      int
 	defined bool
-	fv     *Term // the single free variable, when fvN == 1
-	fvN    int   // number of distinct free variables: 0, 1, or 2 (= two or more)
-	size   int   // number of nodes (tree size, capped)
+	fv      *Term // the single free variable, when fvN == 1
+	fvN     int   // number of distinct free variables: 0, 1, or 2 (= two or more)
+	size    int   // number of nodes (tree size, capped)
 }
 
 var (
@@ -663,7 +663,6 @@ func mask64(s Sort) uint64 {
 }
 
 var _ = bits.Len
-
 
 // termMax returns a cheap upper bound (unsigned) of a BV term's value.
 func termMax(t *Term) uint64 {
